@@ -94,7 +94,7 @@ def chk_v2(c, note):
         return p
     eh = L.selected_heading(f["hdg_status"], f["hdg_sign"], f["hdg"])
     p = expect(A.selected_heading, msg, eh, "status %d sign %d magnitude %d" % (f["hdg_status"], f["hdg_sign"], f["hdg"]),
-               lambda a, b: feq(a, b) or (a is not None and b is not None and not isinstance(a, (str, bool)) and abs((a - b + 180) % 360 - 180) <= 1e-9 and 0 <= a < 360 + 1e-9))
+               feq)   # the encoded heading itself, in [0, 360): 360.0 for an encoded 0 is not the value in the frame
     if p:
         return p
     for fn, bit in ((A.autopilot, "ap"), (A.vnav_mode, "vnav"), (A.altitude_hold_mode, "althold"), (A.approach_mode, "app"), (A.lnav_mode, "lnav")):
